@@ -101,6 +101,11 @@ func init() {
 			pc.Aliases = 1
 			p := GenProg(r, pc)
 			target := p.Root.Opts[0]
+			if (kind == KString || kind == KStringOpt) && idx%7 == 3 && target.Env == "" {
+				// a list of enforced values in no particular order: every declared value must be read exactly as written
+				target.Valid = []string{"default", "dev", "staging", "prod", "ERROR", "DEBUG", "3", "2", "1"}
+				target.ValidSplit = idx%14 == 3
+			}
 			var targetItems []*Item
 			var valText, cls string
 			reps := 1
@@ -124,6 +129,9 @@ func init() {
 					it.K = IValued
 					it.Attached = attached
 					valText = c01Value(r, kind, attached)
+					if len(target.Valid) > 0 {
+						valText = r.Pick(target.Valid)
+					}
 					it.Vals = []string{valText}
 					cls = valueClass(kind, valText)
 				}
